@@ -11,6 +11,7 @@ use crate::utils::ptr_util::{OwnedPtr, WeakPtr};
 pub unsafe fn patch_ast(compilation_state: &mut CompilationState) {
     let mut patcher = TypeRefPatcher {
         type_ref_patches: Vec::new(),
+        member_scope: None,
         diagnostics: &mut compilation_state.diagnostics,
     };
 
@@ -21,6 +22,9 @@ pub unsafe fn patch_ast(compilation_state: &mut CompilationState) {
 
 struct TypeRefPatcher<'a> {
     type_ref_patches: Vec<PatchKind>,
+    /// The scoped identifier of the field or parameter whose type is currently being resolved (if any).
+    /// Lints about that type belong to the member, so `allow` attributes on the member itself apply to them.
+    member_scope: Option<String>,
     diagnostics: &'a mut Diagnostics,
 }
 
@@ -30,6 +34,7 @@ impl TypeRefPatcher<'_> {
             let patch = match node {
                 Node::Field(field_ptr) => {
                     let type_ref = &field_ptr.borrow().data_type;
+                    self.member_scope = Some(field_ptr.borrow().parser_scoped_identifier());
                     self.resolve_definition(type_ref, ast).map(PatchKind::FieldType)
                 }
                 Node::Interface(interface_ptr) => {
@@ -40,6 +45,7 @@ impl TypeRefPatcher<'_> {
                 }
                 Node::Parameter(parameter_ptr) => {
                     let type_ref = &parameter_ptr.borrow().data_type;
+                    self.member_scope = Some(parameter_ptr.borrow().parser_scoped_identifier());
                     self.resolve_definition(type_ref, ast).map(PatchKind::ParameterType)
                 }
                 Node::Enum(enum_ptr) => enum_ptr
@@ -72,6 +78,7 @@ impl TypeRefPatcher<'_> {
                 _ => None,
             };
             self.type_ref_patches.push(patch.unwrap_or_default());
+            self.member_scope = None;
         }
     }
 
@@ -209,7 +216,7 @@ impl TypeRefPatcher<'_> {
                 let reason = deprecated.reason.clone();
                 Diagnostic::new(Lint::Deprecated { identifier, reason })
                     .set_span(type_ref.span())
-                    .set_scope(type_ref.parser_scope())
+                    .set_scope(self.member_scope.as_deref().unwrap_or(type_ref.parser_scope()))
                     .add_note(
                         format!("{} was deprecated here:", entity.identifier()),
                         Some(entity.span()),
